@@ -1480,7 +1480,9 @@ class BDD(dd._abc.BDD[_Ref]):
         @param w:
             high edge
         """
-        _request_reordering(self)
+        # request reordering only if a caller can serve it
+        if self._reordering_context:
+            _request_reordering(self)
         if i < 0:
             raise ValueError(
                 f'The given level: {i = } < 0')
